@@ -132,6 +132,19 @@ CHECKS = {
         note="Trusts CrossHair/z3 and the standard-SQL scanner (verif/sqllex); content length <= 3 (LIKE-pattern positions in "
              "quick: <= 2); known finding: the ESCAPE clause is appended only when the literal contains a wildcard (pinned "
              "tests forbid always emitting it), normalised away before comparison."),
+    "C12": dict(
+        level="model_checking", engine="chx", design="DESIGN.md section 4 C12",
+        technique="CrossHair symbolic execution (z3) of all seven backends' visitors with symbolic picks of (node kind, "
+                  "operand position) and symbolic string leaves; outcome classification (translation / library exception / "
+                  "foreign exception / placeholder), plus a concrete sentinel completeness pre-pass",
+        text="For every well-typed (node kind x operand position x backend) combination CrossHair certifies, for every "
+             "choice inside the chunk and every string content within the bound, that the backend either returns a "
+             "translation of the right type without placeholder text or raises a library exception (NotImplementedError only "
+             "for SQLAlchemy Core paths/lambdas); unknown SQLAlchemy field names (symbolic pick from dir(Model)) give "
+             "InvalidFieldException.",
+        note="Completeness (every field/literal represented) is a concrete sentinel check composed with C07/C08 "
+             "non-interference; SQLAlchemy ORM lambdas are enumerated concretely (relationship.any() is not executable under "
+             "CrossHair); ImportError for Django geo functions without GeoDjango is treated as the documented refusal."),
 }
 
 NOT_YET = {}
@@ -220,6 +233,11 @@ SOURCE_COMMITS = [
     "5b1d5e9 fix: time literals no longer accept a doubled colon before the seconds",
     "8c291c9 fix: dates with a year below 1000 are recognised as dates",
     "2cc12b4 fix: identifiers may start with a non-ASCII letter",
+    "9fcac0b fix: SQL dialects translate time literals instead of emitting the text 'None'",
+    "b32a8eb fix: backends refuse nodes they cannot translate instead of dropping them",
+    "014ecd9 fix: Django backend accepts the null literal outside of eq/ne comparisons",
+    "7f92452 fix: SQLAlchemy ORM reports a path through a plain column as an invalid field",
+    "b2f2aa1 fix: SQLAlchemy ORM only accepts mapped attributes as fields",
 ]
 
 if __name__ == "__main__":
